@@ -987,6 +987,7 @@ func TestCheck(t *testing.T) {
 		"decoders run on fresh zero values, as every call site in the node does (part d additionally decodes into reused receivers; there the decoded VALUE is judged only for bytes an encoder wrote)",
 		"part (d): 'fresh process state' is a newly started process (re-exec of the test binary) that has run the Go runtime's and the imported packages' initialisation and read the pool file, and nothing else, before its first decode; the harness builds its keys lazily so that no key or address code runs before it. Dumping a decoded value (Hash, signature check, ValidateBasic, re-encode, re-decode) happens after the last decode of the history",
 		"part (d) compares the success/failure of a decode, not error texts",
+		"part (d) reuse-copy: a by-value copy of a Data / SignedData copies the Metadata it points to by value as well (m := *d.Metadata); a copy that keeps the POINTER shares the Metadata object with the receiver by the caller's own doing (Data.FromProto fills an existing Metadata in place) and is not judged. In this mode dumps (Hash, re-encode, signature check) sit between the decodes",
 		"part (e): one fixed non-default signature payload provider (sha256 of a tag and the header bytes, world.CustomPayloadProvider) stands for 'a provider other than the default'; producer and full node of a world share the configuration; the un-encoded reference enters the sync loop's header channel with the verifier attached, as both ingress paths do (block/retriever.go, block/store.go); for the cache-file path the header reaches the header cache the same way (for a header the node would reject this is 'a cache file written by the real encoder that holds this value', not a state the node reaches by itself); a verdict is 'the block is applied' (a dropped blob and a fatal sync error are both 'not accepted')",
 	}
 	if os.Getenv("VERIF_C12_GOLDEN") == "write" {
@@ -1287,7 +1288,7 @@ func TestCheck(t *testing.T) {
 		Rule: "(0) concurrent calls: every function of the table (MarshalBinary / UnmarshalBinary / ToProto+proto.Marshal / proto.Unmarshal+FromProto of Header, SignedHeader, Metadata, Data, SignedData; Hash of Header, SignedHeader, Data, SignedData; DACommitment; ValidateBasic / Validate; the signature checks; DefaultSignaturePayloadProvider; State ToProto / FromProto; the batch-cursor codec; types.Validate(header, data); the store and cache-file round trips) is called by 2 and by 8 goroutines behind a start barrier, on different values and on one shared value, in the layouts listed under bounds; then all functions run at once (two goroutines each), and at the thorough tier every ordered pair of different functions runs as two goroutines (at the quick tier pairs of different functions meet in the all-at-once layout and in the -race supplement only). In each run one side is busy for a long time inside single calls on multi-MiB values while the other side completes thousands of calls on small values; every goroutine keeps calling until all of them have made their minimal number of calls and have seen min(that number, 16) of their calls overlapped. EVERY result of every call is compared with the result the same call returned sequentially before the run (computed twice: a difference there is clause stable-under-repeated-calls); a differing result or a panic (recovered per call) is clause stable-under-concurrent-calls with tags fn:<function>, layout:<layout>, kind:mismatch|panic and returned-another-callers-result when the wrong result is the expected result of another goroutine. The overlap of calls is measured (a call counts as overlapped when another goroutine was inside a call at its start or end, or completed one meanwhile); a run in which some goroutine saw no overlap is repeated, and listed under caps after three attempts. Parts (a)-(e) run afterwards; a panic of a hash or codec function inside their parallel workers is a finding (hash-or-codec-panic), never a harness crash. " +
 			"(a) every enumerated value of every wire type is carried through each of its real paths (MarshalBinary/UnmarshalBinary, ToProto+proto.Marshal / proto.Unmarshal+FromProto, the real DefaultStore, Cache.SaveToDisk/LoadFromDisk) and compared field by field, by Hash/DACommitment and by signature validity; " +
 			"(b) fixed values are compared verbatim with /verif/golden/c12.json; (c) every byte string up to the length bound, every prefix and every single-byte substitution of every golden encoding is offered to every decoder; " +
-			"(d) decode histories: over a pool of messages of every codec type that collide pairwise on every sub-key a memo could use (signer address / public key / key type, header hash, height, time, chain id, signature, tx list, metadata, wire length and prefix, present vs absent sub-messages, failing vs succeeding decodes), EVERY ordered history up to the length bound is run in its own freshly started process (fresh receivers: all pool^n histories; one reused receiver: all histories within one receiver type), decodes first, dumps afterwards; every step's dump (canonical fields, Hash/DACommitment, signature validity, ValidateBasic verdict, re-encoded bytes, re-decode fixed point) must equal the dump of the one-message history of that message, and a pool value must equal the value it was encoded from; plus one long in-process walk that decodes every ordered pair consecutively in the state parts (a)-(c) left behind. " +
+			"(d) decode histories: over a pool of messages of every codec type that collide pairwise on every sub-key a memo could use (signer address / public key / key type, header hash, height, time, chain id, signature, tx list, metadata, wire length and prefix, present vs absent sub-messages, failing vs succeeding decodes), EVERY ordered history up to the length bound is run in its own freshly started process (fresh receivers: all pool^n histories; one reused receiver: all histories within one receiver type), decodes first, dumps afterwards; every step's dump (canonical fields, Hash/DACommitment, signature validity, ValidateBasic verdict, re-encoded bytes, re-decode fixed point) must equal the dump of the one-message history of that message, and a pool value must equal the value it was encoded from; plus one long in-process walk that decodes every ordered pair consecutively in the state parts (a)-(c) left behind. Aliasing supplement (mode reuse-copy): every ordered history up to the length bound of messages of one receiver type (and of the batch-cursor codec) is decoded into ONE reused receiver, in its own process and — for all ordered pairs — again in this process; after every step a by-value copy of the receiver is taken (Go struct assignment c := *recv, a pointer-valued Metadata copied the same way, no byte string cloned; for the batch cursor the returned list and a copy of its outer slice) and dumped at once, and after EVERY later decode into that receiver (succeeding or failing) every earlier copy is dumped again: canonical fields, Hash/DACommitment, signature validity, validation verdict, re-encoded bytes and fixed point must be what they were (clause earlier-copy-changed-by-later-decode, tags type, receiver, copy-of-step, after-step, collide:<sub-key>, differs:<field>). Conversely for every ordered pair (x, y) of one type: the bytes the encoder returned for x must stay byte-identical when x is encoded again (and the second encoding must be equal), when y is decoded and encoded, when y is decoded into the value, when the value is encoded again, and when every byte string of the value is overwritten in place (clause encoded-bytes-changed-later, tag stage:<stage>). " +
 			"(e) verification verdicts of a node: a real full node (real SyncLoop, RetrieveLoop, HeaderStoreRetrieveLoop under virtual time) configured with signature payload provider P receives a signed header of a real producer chain, re-signed by the proposer over the default payload / the non-default payload / with a corrupted signature, un-encoded and through each of its encodings that lead back into a node (cache file across SaveCache / NewManager / LoadCache with the header waiting for its data or for its predecessor, DA blob, P2P header store) while the block's data arrives un-encoded or as a SignedData DA blob (valid / corrupted signature); 'the node applies the block' must be the same for the decoded value as for the value that was encoded, for every combination (the signed payload is node configuration, not part of any encoding); part (a) additionally compares signature validity under the non-default provider's payload before and after every path. " +
 			"evaluations = (value, path) round trips attempted + commitment comparisons + golden comparisons + (decoder, input) decodes + histories (one process each) + decodes of the in-process walk + node scenarios; distinct non-trivial = distinct values that completed a round trip on at least one path + distinct (decoder, input) pairs that decoded successfully and went through the re-encode/decode fixed-point test (mutants are de-duplicated by hash, short strings are distinct by construction) + distinct histories whose last decode succeeds + node scenarios in which the block is applied",
 		Bounds: map[string]any{
@@ -1303,7 +1304,8 @@ func TestCheck(t *testing.T) {
 			"substitution_values_per_position": vf.Pick(r, "8 representative", "all 255 others"), "pair_substitutions_on_encodings_up_to_48_bytes": r.Thorough(),
 			"golden_vectors": len(g.Vectors),
 			"history_max_length": histLen, "history_pool_messages": hst.Pool,
-			"history_modes": "fresh receivers: all pool^n ordered histories, n = 1..max; reused receiver: all ordered histories of n = 2..max messages of one receiver type",
+			"history_modes": "fresh receivers: all pool^n ordered histories, n = 1..max; reused receiver: all ordered histories of n = 2..max messages of one receiver type; reuse-copy (by-value copy kept after every step, re-dumped after every later decode): all ordered histories of n = 2..max messages of one receiver type or of the batch-cursor codec, one process each, plus all ordered pairs in-process; encoder stability: all ordered pairs of one type x 5-7 stages",
+			"reuse_copy_receiver_types": "Header, SignedHeader (binary and proto path share the receiver), Data, SignedData, Metadata, State, batch cursor list (function result)",
 			"signed_header_signatures": "nil, empty, 1 byte, 32 bytes, valid over the default payload, valid over the non-default payload (world.CustomPayloadProvider)",
 			"node_verdict_chains": nodePatterns, "node_verdict_scenarios": nst.Cases,
 			"node_verdict_dimensions": "every target block above the first x node provider {default, non-default} x header signed over {default payload, non-default payload, corrupted} x {in order, before its predecessor blocks} x header via {un-encoded (reference), cache file across a clean restart, DA blob, P2P store (in order only)} x data via {un-encoded, SignedData DA blob, SignedData DA blob with corrupted signature} (empty block: no data)",
